@@ -28,7 +28,7 @@ type c08Case struct {
 	File      string   `json:"input_base64"`
 }
 
-var c08FixedSchedules = []string{"1", "2", "3", "7", "8", "4095", "4096", "4097", "data+eof", "1+data+eof", "4096+data+eof", "zero-nil", "zero-nil-3+all", "kind:1", "kind:2", "kind:3", "kind:4", "kind:5", "kind:6"}
+var c08FixedSchedules = []string{"1", "2", "3", "7", "8", "4095", "4096", "4097", "data+eof", "1+data+eof", "4096+data+eof", "zero-nil", "zero-nil-3+all", "kind:1", "kind:2", "kind:3", "kind:4", "kind:5", "kind:6", "kind:7"}
 
 func c08Schedules(rng *core.RNG, thorough bool) []string {
 	s := append([]string{}, c08FixedSchedules...)
